@@ -27,6 +27,8 @@ LATTICES = {
     "tetragonal": ([4.59, 4.59, 2.96, 90, 90, 90], "P"), "orthorhombic": ([4.1, 5.2, 6.3, 90, 90, 90], "P"),
     "monoclinic": ([5.1, 6.2, 7.3, 90, 103, 90], "P"), "rhombR": ([4.76, 4.76, 12.99, 90, 90, 120], "R"),
     "rhombP": ([5.0, 5.0, 5.0, 70, 70, 70], "P"),
+    # pseudo-orthorhombic: several hkl assignments of one pair of peaks agree within the cosine tolerance
+    "monoclinic_pseudo": ([5.1, 5.3, 5.2, 90, 90.6, 90], "P"),
 }
 COSTOL = [0.002, float(np.cos(np.radians(89.9))), -0.002]
 
@@ -146,25 +148,29 @@ def build(case):
     return cell, sym, hk, UBs, np.ascontiguousarray(gv[o]), owner[o], redraws
 
 
-def ring_fixes_orientation(table, B, ctol):
-    """True when two peaks of one ring determine the lattice: every two assignments (h1, h2), (h1', h2') of table
-    members to a pair of peaks whose angles agree within the cosine tolerance give the same lattice (they differ by a
-    rotation of the lattice).  Otherwise two peaks leave a choice between different lattices (the two-peak
-    ambiguity: mirror images through the plane of the two vectors) and one ring alone need not find the grain."""
-    hk = np.array(sorted(table), float)
-    if len(hk) > 12:
+def ring_fixes_orientation(table, B, ctol, table2=None):
+    """True when two peaks, one of ring `table` and one of ring `table2` (the same ring by default), determine the
+    lattice: every two assignments (h1, h2), (h1', h2') of table members to a pair of peaks whose angles agree within
+    the cosine tolerance give the same lattice (they differ by a rotation of the lattice).  Otherwise two peaks leave
+    a choice between different lattices (the two-peak ambiguity: mirror images through the plane of the two vectors)
+    and these rings alone need not find the grain."""
+    hk1 = np.array(sorted(table), float)
+    hk2 = hk1 if table2 is None else np.array(sorted(table2), float)
+    if len(hk1) > 12 or len(hk2) > 12:
         return False
-    G = hk @ B.T
-    n = G / np.linalg.norm(G, axis=1)[:, None]
-    C = n @ n.T
-    pairs = [(a, b) for a in range(len(hk)) for b in range(len(hk)) if abs(C[a, b]) < 0.98]
+    n1 = hk1 @ B.T
+    n1 /= np.linalg.norm(n1, axis=1)[:, None]
+    n2 = hk2 @ B.T
+    n2 /= np.linalg.norm(n2, axis=1)[:, None]
+    C = n1 @ n2.T
+    pairs = [(a, b) for a in range(len(hk1)) for b in range(len(hk2)) if abs(C[a, b]) < 0.98]
     if not pairs:
         return False
     Bi = np.linalg.inv(B)
 
     def frame(a, b):
-        t1 = n[a]
-        t3 = np.cross(n[a], n[b])
+        t1 = n1[a]
+        t3 = np.cross(n1[a], n2[b])
         t3 /= np.linalg.norm(t3)
         return np.array([t1, np.cross(t3, t1), t3]).T
     F = {p_: frame(*p_) for p_ in pairs}
@@ -177,6 +183,21 @@ def ring_fixes_orientation(table, B, ctol):
                 if np.abs(M - np.rint(M)).max() > 1e-6:
                     return False
     return True
+
+
+@st.composite
+def axialcases(draw, small=False):
+    """long wavelength / small d* range: only the axial rings (100), (010), (001) of an orthogonal primitive cell are
+    offered for generating orientations, so every usable pair of peaks subtends 90 degrees"""
+    c = draw(cases(False, small))
+    c["lattice"] = draw(st.sampled_from(["cubicP", "tetragonal", "orthorhombic"]))
+    c["driver"] = "do_index"
+    c["dohist"] = "axial_forgen"
+    c["cone"] = 0
+    c["frac"] = min(c["frac"], 0.7)
+    c["nrefl"] = min(c["nrefl"], 120)
+    c.pop("passes", None)
+    return c
 
 
 def counts(ubi, gv, tol):
@@ -287,6 +308,19 @@ def check(case, rec=None):
                         break
                 else:
                     dohist = "single_forgen:no_ring_fixes_the_orientation"
+            elif dohist == "axial_forgen":
+                Bm = gens.busing_levy_B(cell)
+                tabs = {rr: set(tuple(int(x) for x in h) for h in probe.unitcell.ringhkls[probe.unitcell.ringds[rr]])
+                        for rr in rings}
+                ax = [rr for rr in rings if all(sorted(abs(x) for x in h) == [0, 0, 1] for h in tabs[rr])][:3]
+                okpairs = [(a_, b_) for i_, a_ in enumerate(ax) for b_ in ax[i_:]
+                           if ring_fixes_orientation(tabs[a_], Bm, abs(case["cosine_tol"]), tabs[b_])]
+                complete_rings = all(((probe.ra == rr) & (owner == g_)).sum() == len(tabs[rr])
+                                     for rr in ax for g_ in range(ng))
+                if okpairs and complete_rings:
+                    forgen = ax
+                else:
+                    dohist = "axial_forgen:not_applicable"
             elif dohist == "shared_unitcell" and len(rings) >= 4:
                 low = rings[:max(2, len(rings) // 3)]
                 import io as _io, contextlib as _ctx
@@ -381,7 +415,17 @@ def check(case, rec=None):
                     hh = (u @ (UB @ hk.T)).T
                     if np.abs(hh - (R @ hk.T).T).max() < tol:
                         found.setdefault(g, []).append(k)
-        missing = [g for g in range(ng) if g not in found]
+        # a grain has to be reported when its own orientation indexes more than the minimum that was in force
+        # (do_index derives that minimum from the multiplicities of the occupied rings: with merged rings at the edge
+        # of the simulated range it can exceed the number of reflections a grain has)
+        required = []
+        for g, UB in enumerate(UBs):
+            lo_g, _, _ = counts(np.linalg.inv(UB), gv, tol)
+            if lo_g.sum() > minpks_low:
+                required.append(g)
+            elif rec is not None:
+                rec.exclude("grain has no more than minpks reflections within hkl_tol: not required")
+        missing = [g for g in required if g not in found]
         twice = [g for g, ks in found.items() if len(ks) > 1]
         if missing:
             fails.append(fail("missed", "%d of %d simulated grains were not reported (%d UBIs reported); %s" %
@@ -389,7 +433,7 @@ def check(case, rec=None):
         if twice:
             fails.append(fail("twice", "simulated grain(s) %s reported more than once; %s" % (twice, where),
                               inv="complete"))
-        if not missing and not twice and len(ubis) != ng:
+        if not missing and not twice and len(ubis) != len(found):
             fails.append(fail("extra", "%d UBIs reported for %d simulated grains; %s" % (len(ubis), ng, where),
                               inv="complete"))
     if rec is not None:
@@ -410,6 +454,7 @@ def check(case, rec=None):
 def run_shard(rec):
     quick = rec.tier == "quick"
     hyp_run(rec, "complete", cases(False, quick), lambda c: check(c, rec), max_examples=20 if quick else 250, shrink=not quick)
+    hyp_run(rec, "axial", axialcases(quick), lambda c: check(c, rec), max_examples=3 if quick else 40, shrink=not quick)
     hyp_run(rec, "sound", cases(True, quick), lambda c: check(c, rec), max_examples=25 if quick else 300, shrink=not quick)
 
 
